@@ -79,6 +79,10 @@ pub fn c12(args: &[String]) {
     silence_panics();
     let out = arg(args, "--out").expect("--out");
     let max_n = arg_u64(args, "--max-calls", 120);
+    // `--detail 1`: the whole sweep (the unlimited run included) with detailed error tracking switched on
+    let detail = arg_u64(args, "--detail", 0) > 0;
+    pest::set_error_detail(detail);
+    let backend = if detail { "vm, error detail on" } else { "vm" };
     let src = sources(args, 4);
     let mut w = writer(&out);
     let (mut id, mut skipped_big, mut runs, mut absorbed_seen, mut skipped_panic) = (0u64, 0u64, 0u64, 0u64, 0u64);
@@ -130,11 +134,12 @@ pub fn c12(args: &[String]) {
                 sweep.push(json!({"l": l, "r": r}));
             }
             id += 1;
-            wl(&mut w, &json!({"id": id, "text": text, "start": start, "inp": cps(inp), "backend": "vm",
+            wl(&mut w, &json!({"id": id, "text": text, "start": start, "inp": cps(inp), "backend": backend,
                                "calls_needed": n, "rinf": rinf, "sweep": sweep}));
         }
     }
     pest::set_call_limit(None);
+    pest::set_error_detail(false);
     w.flush().unwrap();
     println!("{}", json!({"cases": id, "limited_runs": runs, "skipped_many_calls": skipped_big, "skipped_panicking": skipped_panic,
                           "grammars": src.grammars.len(), "runs_differing_from_unlimited": absorbed_seen}));
